@@ -40,28 +40,40 @@ fn main() {
     let only = if args.len() >= 7 && args[5] == "--only" { Some(args[6].parse::<u64>().expect("case")) } else { None };
     let mut out = Out::new(prop, only);
     let mut rng = Rng::new(seed ^ 0xA5A5_0000 ^ (prop.bytes().fold(0u64, |a, b| a.wrapping_mul(131).wrapping_add(b as u64))));
-    match prop {
-        "C01" => props_mom::c01(&mut out, tier, &mut rng),
-        "C02" => props_mom::c02(&mut out, tier, &mut rng),
-        "C03" => props_mom::c03(&mut out, tier, &mut rng),
-        "C04" => props_mom::c04(&mut out, tier, &mut rng),
-        "C10" => props_mom::c10(&mut out, tier, &mut rng),
-        "C05" => props_quant::c05(&mut out, tier, &mut rng),
-        "C07" => props_quant::c07(&mut out, tier, &mut rng),
-        "C06" => props_hist::c06(&mut out, tier, &mut rng),
-        "C12" => props_hist::c12(&mut out, tier, &mut rng),
-        "C13" => props_hist::c13(&mut out, tier, &mut rng),
-        "C08" => props_pair::c08(&mut out, tier, &mut rng),
-        "C09" => props_pair::c09(&mut out, tier, &mut rng),
-        "C14" => props_pair::c14(&mut out, tier, &mut rng),
-        "C11" => props_struct::c11(&mut out, tier, &mut rng),
-        "C16" => props_struct::c16(&mut out, tier, &mut rng),
-        "C17" => props_struct::c17(&mut out, tier, &mut rng),
-        "C20" => props_struct::c20(&mut out, tier, &mut rng),
-        "C18" => props_io::c18(&mut out, tier, &mut rng),
-        "C19" => props_io::c19(&mut out, tier, &mut rng),
-        "C15" => props_quant::c15(&mut out, tier, &mut rng),
-        _ => { eprintln!("unknown property {}", prop); std::process::exit(2); }
+    // a panic that escapes an operation (outside the places where a panic is an expected observation) is a
+    // violation in itself: report it against the running case instead of dying
+    use std::sync::Mutex;
+    static LAST_PANIC: Mutex<String> = Mutex::new(String::new());
+    std::panic::set_hook(Box::new(|info| { if let Ok(mut g) = LAST_PANIC.lock() { *g = format!("{}", info).replace('\n', " "); } }));
+    let r = std::panic::catch_unwind(std::panic::AssertUnwindSafe(|| {
+        match prop {
+            "C01" => props_mom::c01(&mut out, tier, &mut rng),
+            "C02" => props_mom::c02(&mut out, tier, &mut rng),
+            "C03" => props_mom::c03(&mut out, tier, &mut rng),
+            "C04" => props_mom::c04(&mut out, tier, &mut rng),
+            "C10" => props_mom::c10(&mut out, tier, &mut rng),
+            "C05" => props_quant::c05(&mut out, tier, &mut rng),
+            "C07" => props_quant::c07(&mut out, tier, &mut rng),
+            "C08" => props_pair::c08(&mut out, tier, &mut rng),
+            "C09" => props_pair::c09(&mut out, tier, &mut rng),
+            "C14" => props_pair::c14(&mut out, tier, &mut rng),
+            "C06" => props_hist::c06(&mut out, tier, &mut rng),
+            "C12" => props_hist::c12(&mut out, tier, &mut rng),
+            "C13" => props_hist::c13(&mut out, tier, &mut rng),
+            "C11" => props_struct::c11(&mut out, tier, &mut rng),
+            "C16" => props_struct::c16(&mut out, tier, &mut rng),
+            "C17" => props_struct::c17(&mut out, tier, &mut rng),
+            "C20" => props_struct::c20(&mut out, tier, &mut rng),
+            "C18" => props_io::c18(&mut out, tier, &mut rng),
+            "C19" => props_io::c19(&mut out, tier, &mut rng),
+            "C15" => props_quant::c15(&mut out, tier, &mut rng),
+            _ => { eprintln!("unknown property {}", prop); std::process::exit(2); }
+        }
+    }));
+    if r.is_err() {
+        let msg = LAST_PANIC.lock().map(|g| g.clone()).unwrap_or_default();
+        out.active = true;
+        out.x(false, || format!("an operation panicked where no panic is documented: {}", msg));
     }
     out.finish();
 }
